@@ -24,6 +24,7 @@ import (
 func (vc *VC) kvitCur(st *State) *Term {
 	return vc.heap(st, "KVITcur", vc.eng.st.ArrayOf(sortInt, sortStr))
 }
+
 // kvitSum: per iterator, the sum of Credit over the entries it has moved past (ledger key spaces only)
 func (vc *VC) kvitSum(st *State) *Term {
 	return vc.heap(st, "KVITsum", vc.eng.st.ArrayOf(sortInt, sortInt))
